@@ -83,6 +83,9 @@ class FaultOracle:
             elif eff == "cancel" and m["cancelled"] is None and not m["abandoned"]:
                 m["cancelled"] = f["cond"]
                 m["due"] = 3
+        if any(f["fault"] == "abandon" for f in faults) and pre["cancelled"] is not None and len(faults) > 1:
+            bad("C14.extra_callback", f"a fault during the cancellation exchange must only be logged as abandonment, but callbacks "
+                                      f"{[(f['fault'], f['cond']) for f in faults]} fired", kinds=sorted({f["fault"] for f in faults}))
         for cond, n in per_cond.items():
             if n > 1:
                 bad("C14.multiplicity", f"{cond} declared {n} times in one call", cond=cond, many=n > 2)
